@@ -2387,8 +2387,16 @@ impl<'a> Sim<'a> {
                     votes.push(v);
                     class = "ext-duplicate-vote";
                 }
+                ExtMut::ChangeAddress(k) => {
+                    let absent: Vec<usize> = votes.iter().enumerate().filter(|(_, v)| v.sig_info == vote_flag(2)).map(|(i, _)| i).collect();
+                    let i = if k % 2 == 1 && !absent.is_empty() { absent[*k as usize % absent.len()] } else { *k as usize % votes.len() };
+                    votes[i].validator.address[3] ^= 0x55;
+                    class = "ext-address-differs-from-last-commit";
+                }
                 ExtMut::ChangePower(k) => {
-                    let i = *k as usize % votes.len();
+                    let absent: Vec<usize> = votes.iter().enumerate().filter(|(_, v)| v.sig_info == vote_flag(2)).map(|(i, _)| i).collect();
+                    let i = if k % 2 == 1 && !absent.is_empty() { absent[*k as usize % absent.len()] } else { *k as usize % votes.len() };
+                    let i = i % votes.len();
                     let p = votes[i].validator.power.value();
                     votes[i].validator.power = tendermint::vote::Power::try_from(p + 1).ok()?;
                     class = "ext-power-differs-from-last-commit";
